@@ -7,7 +7,8 @@ From Coq.Floats Require Import SpecFloat.
 Import ListNotations.
 From BWGrammar Require Import Grammar GrammarProofs.
 From BWGrammar.Gen Require Import GrammarGen.
-From BWTable Require Import Cells Fmt StrOrder FmtProofs Sort Limit Reduce Expr ExprSpec Exec ExprProofs BuildProofs GrammarTie.
+From BWTable Require Import Cells Fmt StrOrder FmtProofs Sort ValueOrder Limit Reduce Expr ExprSpec Exec ExprProofs BuildProofs GrammarTie
+  ValueEngine ValueEngineProofs.
 Open Scope Z_scope.
 
 (* ---- the hand-written builder and the grammar ------------------------------------------------------------------- *)
@@ -78,34 +79,99 @@ Theorem C13_recogniser_sound : forall ts h, derivation_of ts = Some h -> yield h
 Proof. exact derivation_of_sound. Qed.
 Print Assumptions C13_recogniser_sound.
 
+(* ==== THE CURRENT ENGINE: the comparison nodes compare BY VALUE (repair ca461fe; model ValueEngine.evalv) ============= *)
+
+Theorem C13_truth_functional : forall a b r x y, evalv a r = Ok x -> evalv b r = Ok y ->
+  evalv (ENot a) r = Ok (negb x) /\ evalv (EAnd a b) r = Ok (x && y) /\ evalv (EOr a b) r = Ok (x || y).
+Proof. exact evalv_truth_functional. Qed.
+Print Assumptions C13_truth_functional.
+
+(* HAVING returns exactly the rows on which the expression is true, unchanged, in their order *)
+Theorem C13_filter_exact : forall e rows kept, havingv (Some e) rows = Ok kept ->
+  kept = filter (holdsv e) rows /\ Forall (fun r => exists b, evalv e r = Ok b) rows.
+Proof. intros e rows kept H. apply havingv_rows_exact. exact H. Qed.
+Print Assumptions C13_filter_exact.
+
+Theorem C13_filter_total : forall e rows, Forall (fun r => exists b, evalv e r = Ok b) rows ->
+  havingv (Some e) rows = Ok (filter (holdsv e) rows).
+Proof. intros e rows F. apply havingv_rows_total. exact F. Qed.
+Print Assumptions C13_filter_total.
+
+(* FULL: a binding against a literal constant of its type is the comparison of the VALUES - any int64 (negative too),
+   any float64 (order of f64_key), text by characters, bool, blob; an extracted id / type against a text constant is the
+   comparison of the characters; two bindings of one kind compare by value; different kinds never hold *)
+Theorem C13_compare :
+  (forall op l r lt v cmp, rget r l = Some (CL lt) -> lit_ty lt = litval_ty v ->
+     evalv (ELit op l (PC v cmp)) r = Ok (cmp_op op (lit_cmp (l_val lt) v))) /\
+  (forall op l r s t cmp, rget r l = Some (CS s) ->
+     evalv (ELit op l (PC (VText t) cmp)) r = Ok (cmp_op op (str_compare s t))) /\
+  (forall op l rb r a b, rget r l = Some a -> rget r rb = Some b ->
+     evalv (EBind op l rb) r =
+       Ok (if same_fine (text_cell a) (text_cell b) then cmp_op op (cell_cmp (text_cell a) (text_cell b)) else false)).
+Proof. split; [exact evalv_lit_compare|]. split; [exact evalv_string_compare | exact evalv_bind_compare]. Qed.
+Print Assumptions C13_compare.
+
+(* a value compared with a constant of another kind never holds (node / predicate / time nodes are unchanged) *)
+Theorem C13_kind_mismatch_never_holds : forall r l c,
+  rget r l = Some c ->
+  (forall op v cmp, cell_matches_const c v = false -> evalv (ELit op l (PC v cmp)) r <> Ok true) /\
+  (forall op text, cell_kind c <> KN -> evalv (ENode op l text) r <> Ok true) /\
+  (forall op text, cell_kind c <> KP -> evalv (EPred op l text) r <> Ok true) /\
+  (forall op t, cell_kind c <> KT -> evalv (ETime op l t) r <> Ok true).
+Proof.
+  intros r l c H. split; [intros; eapply evalv_lit_kind_mismatch; eauto|].
+  split; [intros; eapply node_kind_mismatch_never_holds; eauto|].
+  split; [intros; eapply pred_kind_mismatch_never_holds; eauto | intros; eapply time_kind_mismatch_never_holds; eauto].
+Qed.
+Print Assumptions C13_kind_mismatch_never_holds.
+
+(* applied after grouping and ordering, before LIMIT *)
+Theorem C13_after_grouping : forall srt s t out,
+  execute_tailv_with srt s t = Ok out ->
+  exists grouped ordered kept,
+    project_and_group_byv_with srt (st_group_by s) (st_projs s) t = Ok grouped /\
+    order_byv_with srt (st_order s) (t_rows grouped) = Ok ordered /\
+    havingv (st_having s) ordered = Ok kept /\
+    plan_limit (st_limit s) kept = Ok (t_rows out).
+Proof. exact havingv_after_grouping. Qed.
+Print Assumptions C13_after_grouping.
+
+(* the witnesses of the refutations below under the CURRENT engine: ?o < -4 drops -3; ?o < "ab" drops "ab c" *)
+Example C13_witnesses_now_right :
+  evalv (ELit OLt 1%N (PC (VInt (-4)) (int_cmp_string (-4)))) [(1%N, CL (int_lit (-3)))] = Ok false /\
+  evalv (ELit OLt 1%N (PC (VText (list_byte_of_string "ab")) (text_string (list_byte_of_string "ab"))))
+        [(1%N, CL (text_lit (list_byte_of_string "ab c")))] = Ok false.
+Proof. vm_compute. split; reflexivity. Qed.
+
+(* ==== THE EVALUATOR AS FOUND (comparisons through formatted strings) ================================================== *)
 (* ---- NOT, AND, OR ------------------------------------------------------------------------------------------------ *)
-Theorem C13_truth_functional : forall a b r x y, eval a r = Ok x -> eval b r = Ok y ->
+Theorem C13_truth_functional_as_found : forall a b r x y, eval a r = Ok x -> eval b r = Ok y ->
   eval (ENot a) r = Ok (negb x) /\ eval (EAnd a b) r = Ok (x && y) /\ eval (EOr a b) r = Ok (x || y).
 Proof.
   intros a b r x y H1 H2. split; [apply eval_not; exact H1|]. split; [apply eval_and | apply eval_or]; assumption.
 Qed.
-Print Assumptions C13_truth_functional.
+Print Assumptions C13_truth_functional_as_found.
 
-Theorem C13_shortcut : forall a b r,
+Theorem C13_shortcut_as_found : forall a b r,
   (eval a r = Ok false -> eval (EAnd a b) r = Ok false) /\ (eval a r = Ok true -> eval (EOr a b) r = Ok true).
 Proof. intros a b r. split; [apply eval_and_shortcut | apply eval_or_shortcut]. Qed.
-Print Assumptions C13_shortcut.
+Print Assumptions C13_shortcut_as_found.
 
 (* ---- the filter -------------------------------------------------------------------------------------------------- *)
 (* HAVING returns exactly the rows on which the expression is true, unchanged, in their order - and then every row
    evaluated without error; conversely it fails only if some row does not evaluate *)
-Theorem C13_filter_exact : forall e rows kept, having (Some e) rows = Ok kept ->
+Theorem C13_filter_exact_as_found : forall e rows kept, having (Some e) rows = Ok kept ->
   kept = filter (holds e) rows /\ Forall (fun r => exists b, eval e r = Ok b) rows.
 Proof. intros e rows kept H. apply having_rows_exact. exact H. Qed.
-Print Assumptions C13_filter_exact.
+Print Assumptions C13_filter_exact_as_found.
 
-Theorem C13_filter_total : forall e rows, Forall (fun r => exists b, eval e r = Ok b) rows ->
+Theorem C13_filter_total_as_found : forall e rows, Forall (fun r => exists b, eval e r = Ok b) rows ->
   having (Some e) rows = Ok (filter (holds e) rows).
 Proof. intros e rows F. apply having_rows_total. exact F. Qed.
-Print Assumptions C13_filter_total.
+Print Assumptions C13_filter_total_as_found.
 
 (* ---- a value compared with a constant of another kind never holds ------------------------------------------------ *)
-Theorem C13_kind_mismatch_never_holds : forall r l c,
+Theorem C13_kind_mismatch_never_holds_as_found : forall r l c,
   rget r l = Some c ->
   (forall op v cmp, cell_matches_const c v = false -> eval (ELit op l (PC v cmp)) r <> Ok true) /\
   (forall op text, cell_kind c <> KN -> eval (ENode op l text) r <> Ok true) /\
@@ -116,10 +182,10 @@ Proof.
   split; [intros; eapply node_kind_mismatch_never_holds; eauto|].
   split; [intros; eapply pred_kind_mismatch_never_holds; eauto | intros; eapply time_kind_mismatch_never_holds; eauto].
 Qed.
-Print Assumptions C13_kind_mismatch_never_holds.
+Print Assumptions C13_kind_mismatch_never_holds_as_found.
 
 (* ---- applied after grouping (and ordering), before LIMIT --------------------------------------------------------- *)
-Theorem C13_after_grouping : forall srt fx s t out,
+Theorem C13_after_grouping_as_found : forall srt fx s t out,
   execute_tail_with srt fx s t = Ok out ->
   exists grouped ordered kept,
     project_and_group_by_with srt fx (st_group_by s) (st_projs s) t = Ok grouped /\
@@ -127,7 +193,7 @@ Theorem C13_after_grouping : forall srt fx s t out,
     having (st_having s) ordered = Ok kept /\
     plan_limit (st_limit s) kept = Ok (t_rows out).
 Proof. exact having_after_grouping. Qed.
-Print Assumptions C13_after_grouping.
+Print Assumptions C13_after_grouping_as_found.
 
 (* ---- comparisons -------------------------------------------------------------------------------------------------- *)
 (* time anchors against a time constant: as instants, whatever the zones and precisions *)
@@ -138,7 +204,7 @@ Print Assumptions C13_compare_time.
 
 (* partial (D12): non-negative int64 numerically; text and extracted ids/types lexicographically when no byte is
    below or equal to the closing quote *)
-Theorem C13_compare_partial :
+Theorem C13_compare_as_found_partial :
   (forall op l r a b, 0 <= a < two63 -> 0 <= b < two63 -> rget r l = Some (CL (int_lit a)) ->
      eval (ELit op l (PC (VInt b) (int_cmp_string b))) r = Ok (cmp_holds op (Z.compare a b))) /\
   (forall op l r a b, above_quote a = true -> above_quote b = true -> rget r l = Some (CL (text_lit a)) ->
@@ -148,7 +214,7 @@ Theorem C13_compare_partial :
 Proof.
   split; [exact lit_compare_int_d12|]. split; [exact lit_compare_text_d12 | exact lit_compare_string_d12].
 Qed.
-Print Assumptions C13_compare_partial.
+Print Assumptions C13_compare_as_found_partial.
 
 (* ---- non-vacuity -------------------------------------------------------------------------------------------------- *)
 Definition bs (s : string) : str := list_byte_of_string s.
@@ -163,7 +229,7 @@ Definition ex_tokens : list tok :=
 Example C13_builder_nonvacuous :
   exists h, derivation_of ex_tokens = Some h /\
     new_evaluator ex_tokens = Ok (EAnd (ELit OLt 1%N (PC (VInt 5) (int_cmp_string 5))) (ENot (ENode OEq 2%N (bs "/u<a>")))) /\
-    holds (EAnd (ELit OLt 1%N (PC (VInt 5) (int_cmp_string 5))) (ENot (ENode OEq 2%N (bs "/u<a>"))))
+    holdsv (EAnd (ELit OLt 1%N (PC (VInt 5) (int_cmp_string 5))) (ENot (ENode OEq 2%N (bs "/u<a>"))))
           [(1%N, CL (int_lit 3)); (2%N, CN (bs "/u<b>"))] = true.
 Proof. eexists. split; [vm_compute; reflexivity|]. split; vm_compute; reflexivity. Qed.
 
